@@ -46,6 +46,23 @@ def _stmt_terminates(s, local_raisers=()):
     return False
 
 
+def _conj_expr(atoms):
+    parts = []
+    for e, pol in atoms:
+        parts.append(e if pol else ast.UnaryOp(op=ast.Not(), operand=e))
+    if len(parts) == 1:
+        return parts[0]
+    return ast.BoolOp(op=ast.And(), values=parts)
+
+
+def _disjunction(a, b):
+    """Synthetic test `(<a...>) or (<b...>)`; the operand nodes are shared with the tree (they
+    keep their own parent links), the connectives are new nodes without a parent."""
+    n = ast.BoolOp(op=ast.Or(), values=[_conj_expr(a), _conj_expr(b)])
+    n._synthetic = True
+    return n
+
+
 def decompose(expr, pol):
     """Split a test into atoms: (a and b, True) -> (a,True),(b,True); De
     Morgan for (a or b, False); ``not`` flips."""
@@ -105,6 +122,11 @@ class PathInfo:
                     extra = extra + f + o_end
                 elif o_end is None:
                     extra = extra + t + b_end
+                elif b_end or o_end:
+                    # both arms can fall through, but one of them only under further
+                    # conditions (`if a: (if f: return)`): what follows runs under
+                    # (a and <what the then-arm knows>) or (not a and <what the else-arm knows>)
+                    extra = extra + ((_disjunction(t + b_end, f + o_end), True),)
             elif isinstance(s, (ast.For, ast.AsyncFor)):
                 self._walk(s.body, cur, trys, loops + (s,), withs)
                 self._walk(s.orelse, cur, trys, loops, withs)
